@@ -23,8 +23,8 @@ class SchemaDispatcher(Dispatcher):
         import re as _re
 
         ev.assume.append((_re.compile(r"^None in BASIC_TYPES$"), False))  # BASIC_TYPES = {str, int, float, bool}
-        ev.inline_depth = 12
-        ev.max_recursion = 6
+        ev.inline_depth = 24  # nested Unpack[...] layouts recurse get_schema -> creators -> on_tuple three levels deep
+        ev.max_recursion = 10
         mi = repo.module(M_SCHEMA)
         self.creators = [repo.func(M_SCHEMA, n.name) for n in mi.tree.body
                          if isinstance(n, ast.FunctionDef) and any(ast.unparse(d) == "register" for d in n.decorator_list)]
